@@ -196,6 +196,8 @@ impl<W, R, T> Runtime<W, R, T> {
                 crate::verif::on_alloc(kind, payload, size.0, stats.size.0, max_size);
             }
             if usize::from(stats.size) > max_size {
+                // the value is never created, so its bytes must not stay accounted
+                stats.size -= size;
                 Err(RuntimeViolation::AllocationLimitReached)
             } else {
                 Ok(size)
